@@ -350,6 +350,26 @@ static json handle(json const &cmd)
     if (cmd.value("clear", true)) cvm::clear_error();
     return r;
   }
+  if (op == "scripttable") {
+    // the command table of the running implementation: names and argument-count bounds
+    std::vector<std::string> a = {"cv", "listcommands"};
+    std::vector<unsigned char *> av;
+    for (auto &s : a) av.push_back((unsigned char *) s.c_str());
+    run_colvarscript_command(av.size(), av.data());
+    std::string names(get_colvarscript_result());
+    json l = json::array();
+    std::istringstream is(names);
+    std::string n;
+    while (is >> n) {
+      json c;
+      c["name"] = n;
+      c["min"] = P->script->get_command_n_args_min(n.c_str());
+      c["max"] = P->script->get_command_n_args_max(n.c_str());
+      l.push_back(c);
+    }
+    r["commands"] = l;
+    return r;
+  }
   if (op == "observe") { r = observe(cmd); r["op"] = op; return r; }
   if (op == "log") { r["text"] = P->log_text; if (cmd.value("clear", true)) P->log_text.clear(); return r; }
   if (op == "fileops") {
